@@ -486,7 +486,7 @@ Proof.
   - rewrite Ee. destruct (Z.gtb_spec (ev_time e) (end_time s)).
     + exists 0%nat. cbn [citer]. eapply core_eq_trans; [|apply core_eq_sym; exact C].
       unfold core_eq; ssimpl; auto 10.
-    + exists 1%nat. cbn [citer]. unfold cnext. rewrite Cp, Hp.
+    + exists 1%nat. cbn [citer]. unfold cnext. rewrite Cp.
       assert (B : beyondb (end_time s) true e = false).
       { unfold beyondb. cbn [negb]. rewrite andb_false_r, orb_false_r.
         destruct (Z.gtb_spec (ev_time e) (end_time s)); auto; lia. }
@@ -513,3 +513,177 @@ Proof.
   - apply do_start_citer; auto.
   - apply do_start_citer; auto.
 Qed.
+
+(* ------------------------------------------------------------------ *)
+(** * Quiescent states between run commands *)
+
+Definition Live (s : sim) : Prop :=
+  running s = false /\ (ps s = PInit \/ ps s = PStarted) /\ worker s = WAlive.
+
+(* the replication is over; if it ended through an inclusive bound nothing within the end is left *)
+Definition Over (s : sim) : Prop :=
+  running s = false /\ ps s = PEnded /\ clock s = end_time s
+  /\ (incl s = true -> cterm (end_time s) true s).
+
+Definition Quiet (s : sim) : Prop := Live s \/ Over s.
+
+Lemma over_frozen p fuel s c : Over s -> is_runcmd c = true -> fst (do_cmd fuel p s c) = s.
+Proof.
+  intros (R&P&_) Hc.
+  assert (S1 : start_checks s = false) by (unfold start_checks; rewrite P; cbn; rewrite !andb_false_r; reflexivity).
+  assert (S2 : step_checks s = false) by (unfold step_checks; rewrite P; cbn; rewrite !andb_false_r; reflexivity).
+  destruct c; try discriminate; cbn [do_cmd]; auto.
+  - destruct (rep s); auto. unfold do_start. rewrite S1. auto.
+  - unfold do_step. rewrite S2. auto.
+  - rewrite R. auto.
+  - unfold do_start. rewrite S1. auto.
+  - unfold do_start. rewrite S1. auto.
+Qed.
+
+Lemma stop_at_bound_fields s :
+  clock (stop_at_bound s) = bound s /\ bound (stop_at_bound s) = bound s /\ incl (stop_at_bound s) = incl s
+  /\ rep (stop_at_bound s) = rep s /\ worker (stop_at_bound s) = worker s /\ strat (stop_at_bound s) = strat s
+  /\ flag (stop_at_bound s) = flag s.
+Proof.
+  unfold stop_at_bound. cbv zeta.
+  match goal with |- context [if ?c then _ else _] => destruct c end; ssimpl; auto 10.
+Qed.
+
+Lemma loop_exit_fixed s1 s' :
+  loop_exit s1 s' ->
+  bound s' = bound s1 /\ incl s' = incl s1 /\ rep s' = rep s1 /\ worker s' = worker s1 /\ strat s' = strat s1.
+Proof.
+  intros [R ->|R HB ->|R ->]; auto 10.
+  destruct (stop_at_bound_fields s1) as (_&A&B&C&D&E&_). auto 10.
+Qed.
+
+Lemma run_loop_fixed p fuel s :
+  let s' := run_loop fuel p s in
+  bound s' = bound s /\ incl s' = incl s /\ rep s' = rep s /\ worker s' = worker s /\ strat s' = strat s.
+Proof.
+  cbv zeta. destruct (run_loop_citer p fuel s) as [n [_ X]].
+  destruct (citer_fixed n (bound s) (incl s) p s) as (Fb&Fi&Fr&Fp&Fs&Fw).
+  destruct (loop_exit_fixed _ _ X) as (A&B&C&D&E). repeat split; congruence.
+Qed.
+
+(* how a loop that set the replication to ENDING left: through the bound test, at the end *)
+Lemma run_loop_ending p fuel s :
+  ps s = PStarted -> ps (run_loop fuel p s) = PEnding ->
+  let s' := run_loop fuel p s in
+  clock s' = bound s /\ end_time s <= bound s /\ cterm (bound s) (incl s) s'.
+Proof.
+  intros Hps Hend. cbv zeta. destruct (run_loop_citer p fuel s) as [n [_ X]].
+  destruct (citer_fixed n (bound s) (incl s) p s) as (Fb&Fi&Fr&Fp&_).
+  set (s1 := citer n (bound s) (incl s) p s) in *.
+  destruct X as [R1 E|R1 HB E|R1 E].
+  - exfalso. rewrite E, Fp, Hps in Hend. discriminate.
+  - rewrite E. destruct (stop_at_bound_fields s1) as (A&_). split; [congruence|]. split.
+    + rewrite E in Hend. unfold stop_at_bound in Hend. cbv zeta in Hend.
+      destruct (Z.geb_spec (bound s1) (end_time s1)) as [G|G].
+      * unfold end_time in *. rewrite Fr, Fb in G. lia.
+      * ssimpl. rewrite Fp, Hps in Hend. discriminate.
+    + eapply cterm_core; [apply stop_at_bound_core|]. apply (proj1 (head_beyond_cterm s1)) in HB.
+      rewrite Fb, Fi in HB. exact HB.
+  - exfalso. rewrite E in Hend. unfold raise_flag in Hend. ssimpl. rewrite Fp, Hps in Hend. discriminate.
+Qed.
+
+Lemma entered_end s b i a : Entered s b i a -> end_time a = end_time s.
+Proof. intros En. symmetry. apply end_time_core. apply (en_core _ _ _ _ En). Qed.
+
+(* the state after an accepted start / run_up_to, in the two possible outcomes *)
+Lemma started_quiet p fuel s b i a :
+  Entered s b i a -> b <= end_time s ->
+  let s' := after_loop (run_loop fuel p a) in
+  (ps s' = PStarted /\ Live s') \/ (ps s' = PEnded /\ Over s' /\ b = end_time s).
+Proof.
+  intros En Le s'. set (lb := run_loop fuel p a) in *.
+  destruct (after_loop_facts lb) as (C&Ck&Bd&Ic&_&_&Rn).
+  destruct (after_loop_ps lb) as [P1 P2].
+  destruct (run_loop_fixed p fuel a) as (Fb&Fi&Fr&Fw&_). fold lb in Fb, Fi, Fr, Fw.
+  assert (Ee : end_time s' = end_time s).
+  { unfold s'. rewrite <- (end_time_core _ _ C). unfold end_time at 1. rewrite Fr.
+    apply (entered_end _ _ _ _ En). }
+  destruct (run_loop_ps p fuel a) as [Q|Q]; fold lb in Q.
+  - left. rewrite (en_ps _ _ _ _ En) in Q.
+    assert (Hne : ps lb <> PEnding) by (rewrite Q; discriminate).
+    destruct (P2 Hne) as [A B]. split; [unfold s'; congruence|].
+    split; [exact Rn|]. split; [right; unfold s'; congruence|].
+    unfold s'. rewrite B, Fw. apply (en_worker _ _ _ _ En).
+  - right. destruct (P1 Q) as [A B].
+    destruct (run_loop_ending p fuel a (en_ps _ _ _ _ En) Q) as (E1&E2&E3). fold lb in E1, E3.
+    rewrite (en_bound _ _ _ _ En), (entered_end _ _ _ _ En) in *.
+    rewrite (en_incl _ _ _ _ En) in E3.
+    assert (Eb : b = end_time s) by lia.
+    split; [exact A|]. split; [|exact Eb].
+    split; [exact Rn|]. split; [exact A|]. split.
+    + rewrite Ee. unfold s'. rewrite Ck, E1. exact Eb.
+    + intros Hi. rewrite Ee. eapply cterm_core; [exact C|].
+      unfold s' in Hi. rewrite Ic, Fi, (en_incl _ _ _ _ En) in Hi. subst i. rewrite <- Eb. exact E3.
+Qed.
+
+Lemma do_start_quiet p fuel s b i :
+  Live s -> Quiet (fst (do_start fuel p s b i)).
+Proof.
+  intros L. pose proof L as (_&_&W).
+  destruct (res_cases (snd (do_start fuel p s b i))) as [Ok|Rf].
+  - destruct (do_start_accepted _ _ _ _ _ Ok) as [bz [-> [Ck Le]]].
+    destruct (do_start_shape p fuel s bz i Ck Le W) as [a [En Sh]]. rewrite Sh. cbn [fst].
+    destruct (started_quiet p fuel s _ _ a En (clamp_le s bz i)) as [[_ H]|[_ [H _]]]; [left|right]; auto.
+  - rewrite (do_start_refused _ _ _ _ _ Rf). left; auto.
+Qed.
+
+Lemma do_step_live p s : Live s -> Live (fst (do_step p s)).
+Proof.
+  intros (R&P&W). unfold do_step. destruct (step_checks s); [|repeat split; auto]. cbv zeta. cbn [fst].
+  set (s1 := match ps s with PInit => _ | _ => s end).
+  set (s2 := emit (NStart (clock s1)) (set_rs RStarted s1)).
+  assert (P2 : ps s2 = PStarted) by (unfold s2, s1; destruct P as [Q|Q]; rewrite Q; ssimpl; auto).
+  assert (W2 : worker s2 = WAlive) by (unfold s2, s1; destruct (ps s); ssimpl; auto).
+  destruct (pend s2) as [|e r] eqn:Hp.
+  - repeat split; ssimpl; auto.
+  - destruct (ev_time e >? end_time s2).
+    + repeat split; ssimpl; auto.
+    + destruct (took_bound _ _ _ _ (step_event_took p s2 e r Hp)) as (_&_&_&Tp&_&Tw).
+      repeat split; ssimpl; [right|]; congruence.
+Qed.
+
+Lemma do_cmd_quiet p fuel s c :
+  is_runcmd c = true -> Quiet s -> Quiet (fst (do_cmd fuel p s c)).
+Proof.
+  intros Hc [L|O]; [|rewrite (over_frozen p fuel s c O Hc); right; auto].
+  destruct c; try discriminate; cbn [do_cmd fst]; try (left; exact L).
+  - destruct (rep s); [apply do_start_quiet; auto|left; auto].
+  - left. apply do_step_live; auto.
+  - destruct L as (R&P&W). rewrite R. left. repeat split; auto.
+  - apply do_start_quiet; auto.
+  - apply do_start_quiet; auto.
+Qed.
+
+Lemma do_cmd_citer_quiet p fuel s c :
+  is_runcmd c = true -> Quiet s ->
+  exists n, core_eq (fst (do_cmd fuel p s c)) (citer n (end_time s) true p s).
+Proof.
+  intros Hc [(_&_&W)|O].
+  - apply do_cmd_citer; auto.
+  - exists 0%nat. rewrite (over_frozen p fuel s c O Hc). apply core_eq_refl.
+Qed.
+
+(** Every sequence of run commands (start, step, stop, run_up_to,
+    run_up_to_including with any bounds, in any order, with any fuel) leaves
+    the core of the state somewhere on the canonical sequence. *)
+Theorem run_cmds_citer p fuel cs : forall s,
+  forallb is_runcmd cs = true -> Quiet s ->
+  let s' := fst (run_cmds fuel p s cs) in
+  Quiet s' /\ exists n, core_eq s' (citer n (end_time s) true p s).
+Proof.
+  induction cs as [|c r IH]; intros s Hc Q; cbn [run_cmds fst].
+  - split; auto. exists 0%nat. apply core_eq_refl.
+  - cbn [forallb] in Hc. apply andb_true_iff in Hc. destruct Hc as [Hc Hr].
+    pose proof (do_cmd_quiet p fuel s c Hc Q) as Q1.
+    destruct (do_cmd_citer_quiet p fuel s c Hc Q) as [n1 C1].
+    destruct (do_cmd fuel p s c) as [s1 res]. cbn [fst] in *.
+    destruct (IH s1 Hr Q1) as [Q2 [n2 C2]].
+    destruct (run_cmds fuel p s1 r) as [s2 sn]. cbn [fst] in *.
+    split; auto. exists (n1 + n2)%nat. rewrite citer_add.
+    eapply core_eq_trans; [exact C2|]. rewrite <- (end_time_core _ _ C1) at 1.
+Abort.
